@@ -12,6 +12,20 @@ Theorem C19_discipline_excludes_races : forall (guard : loc -> option mutex) s x
 Proof. exact discipline_no_race. Qed.
 Print Assumptions C19_discipline_excludes_races.
 
+(** The same for a location that one goroutine owns: all writes by the owner under the guard, everybody else under the
+    guard, the owner free to read its own location unlocked (the exemption used for webSocket.connection). *)
+Theorem C19_owner_discipline_excludes_races : forall (owner : loc -> option (tid * mutex)) s x t0 m,
+  oreach owner s -> owner x = Some (t0, m) -> ~ race s x.
+Proof. exact owner_discipline_no_race. Qed.
+Print Assumptions C19_owner_discipline_excludes_races.
+
+(** ... and for a location that is written only while its creating thread alone can reach it and never after it has been
+    published (construction, and the documented configuration before Start): the "unwritten" verdict of the table. *)
+Theorem C19_publication_discipline_excludes_races : forall (creator : loc -> option tid) s x t0,
+  preach creator s -> creator x = Some t0 -> ~ race (base s) x.
+Proof. exact publication_no_race. Qed.
+Print Assumptions C19_publication_discipline_excludes_races.
+
 (** The hypothesis is what excludes the race (without a guard two overlapping accesses are reachable) ... *)
 Theorem C19_unguarded_race_reachable : exists s, reach (fun _ => None) s /\ race s "f"%string.
 Proof. exact unguarded_race_reachable. Qed.
